@@ -76,6 +76,16 @@ func receiversC07() []namedD {
 		{"object", h.Obj("a", h.FloatD(1), "b", h.Str("x"))},
 		{"empty-object", h.Obj()},
 		{"nil-map", &D{Tag: "m", Kty: "str", Ety: "any", IsNil: true}},
+		// objects whose keys are not strings: what a YAML decoder builds (map[any]any, keys of several kinds side by side), maps keyed by numbers or booleans
+		{"object-mixed-keys", &D{Tag: "m", Kty: "any", Ety: "any",
+			Ks: []*D{h.Int("int", 1), h.Str("a"), h.Int("uint", 2), h.Bool(true), h.FloatD(2.5), h.Str("k"), h.Int("int64", -7)},
+			Vs: []*D{h.Obj("k", h.FloatD(1)), h.Obj("k", h.Str("x")), h.Obj("k", h.FloatD(2)), h.FloatD(3), h.Str("v"), h.FloatD(4), h.Obj("k", h.Bool(true))}}},
+		{"object-int-and-string-keys", &D{Tag: "m", Kty: "any", Ety: "any", Ks: []*D{h.Int("int", 1), h.Str("a"), h.Int("int", 2), h.Str("b")},
+			Vs: []*D{h.Obj("k", h.FloatD(1)), h.Obj("k", h.FloatD(2)), h.Obj("k", h.FloatD(3)), h.Obj("k", h.FloatD(4))}}},
+		{"object-nil-key", &D{Tag: "m", Kty: "any", Ety: "any", Ks: []*D{h.Nil(), h.Str("a")}, Vs: []*D{h.FloatD(1), h.Obj("k", h.FloatD(2))}}},
+		{"object-int-keys", &D{Tag: "m", Kty: "other", Ety: "any", Ks: []*D{h.Int("int", 1), h.Int("int", 65)}, Vs: []*D{h.Obj("k", h.FloatD(1)), h.Obj("k", h.FloatD(2))}}},
+		{"object-bool-keys", &D{Tag: "m", Kty: "other", Ety: "any", Ks: []*D{h.Bool(false), h.Bool(true)}, Vs: []*D{h.Obj("k", h.FloatD(1)), h.Obj("k", h.FloatD(2))}}},
+		{"object-float-keys", &D{Tag: "m", Kty: "other", Ety: "any", Ks: []*D{h.FloatD(1.5), h.FloatD(2)}, Vs: []*D{h.Obj("k", h.FloatD(1)), h.Obj("k", h.FloatD(2))}}},
 		{"struct", &D{Tag: "st", Fs: []h.Field{{Name: "A", Exported: true, Iface: false, V: h.Int("int", 1)}, {Name: "B", Exported: true, Iface: true, V: h.Str("x")}}}},
 		{"struct-unexported", &D{Tag: "st", Fs: []h.Field{{Name: "A", Exported: true, Iface: true, V: h.Int("int", 1)}, {Name: "b", Exported: false, Iface: true, V: h.Str("x")}}}},
 		{"nil-pointer", h.NilPtr()},
